@@ -14,8 +14,24 @@ func Int31n(n int32) int32 {
 	return 0
 }
 
-func Intn(n int) int       { return int(Int31n(int32(n))) }
-func Int63n(n int64) int64 { return int64(Int31n(int32(n))) }
+func Intn(n int) int {
+	if n <= 0 {
+		panic("invalid argument to Intn")
+	}
+	if int64(n) > 1<<31-1 {
+		return int(Int31n(1<<31 - 1))
+	}
+	return int(Int31n(int32(n)))
+}
+func Int63n(n int64) int64 {
+	if n <= 0 {
+		panic("invalid argument to Int63n")
+	}
+	if n > 1<<31-1 {
+		return int64(Int31n(1<<31 - 1))
+	}
+	return int64(Int31n(int32(n)))
+}
 func Int() int             { return int(Int31n(1 << 30)) }
 func Int31() int32         { return Int31n(1<<31 - 1) }
 func Uint32() uint32       { return uint32(Int31n(1<<31 - 1)) }
